@@ -278,7 +278,16 @@ fn compare(op: Bin, l: &RVal, r: &RVal) -> Ev {
                 _ => Ev::Open("ordering of booleans / arrays"),
             };
         }
-        (RVal::Ts(_), RVal::Text(_)) | (RVal::Text(_), RVal::Ts(_)) => return Ev::Open("timestamp vs text literal comparison"),
+        // a text compared with a timestamp is read as a timestamp literal (README: `WHERE timestamp > '2021-...'`),
+        // whichever side it is on; a text that is no timestamp literal has no value to compare
+        (RVal::Ts(x), RVal::Text(t)) => match parse_ts(t) {
+            Some(y) => Some(x.cmp(&y)),
+            None => return Ev::NoValue("text compared with a timestamp is not a timestamp literal"),
+        },
+        (RVal::Text(t), RVal::Ts(y)) => match parse_ts(t) {
+            Some(x) => Some(x.cmp(y)),
+            None => return Ev::NoValue("text compared with a timestamp is not a timestamp literal"),
+        },
         _ => return Ev::NoValue("comparison of different types"),
     };
     let o = ord.unwrap();
